@@ -130,6 +130,27 @@ def make_case(args):
                 rec["exc"] = f"{type(e).__name__}: {str(e)[:200]}"
                 rec["exc_type"] = type(e).__name__
             out.append(rec)
+    # the same ordinary spectrum held by dask with BOTH spectral dimensions split into chunks: the statistics that go through
+    # apply_ufunc over a core dimension must still return (a dropped or conditional rechunk raises ValueError inside dask)
+    try:
+        import dask  # noqa
+
+        daoc = dao.chunk({"freq": 2, "dir": 3})
+        for op in ("tp", "fp", "dp", "dpm", "dpspr", "alpha", "gamma", "stats", "tp_discrete"):
+            if op not in C:
+                continue
+            rec = dict(icase=icase, op=op, kind="ordinary:dask(freq=2,dir=3)", nf=nfo, nd=ndo, fk="log", extra="dask", freq=fo.tolist(),
+                       dirs=do.tolist(), E=Eo.tolist())
+            try:
+                r = C[op](daoc, auxo)
+                r = r.compute(scheduler="synchronous") if hasattr(r, "compute") else r
+                rec["ok"] = True
+            except Exception as e:
+                rec["exc"] = f"{type(e).__name__}: {str(e)[:200]}"
+                rec["exc_type"] = type(e).__name__
+            out.append(rec)
+    except ImportError:
+        pass
     # contract of the native entry point: specpart_wrap.c takes the data pointer and reads nk*nth floats forward, whatever
     # the strides — so every array handed to it must be a C-contiguous float32 block of exactly that size, also when the
     # caller's spectrum is a float32 view with negative / non-unit strides or transposed storage
